@@ -5445,7 +5445,8 @@ void UniCompiler::emit_vm(UniOpVM op, const Vec& dst_, const Mem& src_, Alignmen
       }
 
       case UniOpVM::kLoadInsertU16: {
-        cc->emit(op_info.sse_inst_id, dst, dst, idx);
+        src.set_size(2);
+        cc->emit(op_info.sse_inst_id, dst, src, idx);
         return;
       }
 
